@@ -8,6 +8,7 @@ package c11
 import (
 	"context"
 	"fmt"
+	"math/bits"
 	"os"
 	"sort"
 	"strings"
@@ -221,6 +222,11 @@ func runPath(t *testing.T, cfg config, path []event) (res result) {
 					break events
 				}
 				for i, w := range ws {
+					if before[i] && w.def.Table == e.Table && w.def.Rev > e.R && w.ctx.Err() == nil && !w.notified {
+						if ok, kind := answerAvailable(w); ok && kind == "nil" {
+							viol("waiter-released-before-its-revision", fmt.Sprintf("w%d (rev %d) released by notify(%s,%d)", i, w.def.Rev, e.Table, e.R))
+						}
+					}
 					if before[i] && w.def.Table == e.Table && w.def.Rev <= e.R {
 						w.notified = true
 						if w.ctx.Err() == nil {
@@ -506,5 +512,85 @@ func TestQueueStateSpace(t *testing.T) {
 			t.Parallel()
 			explore(t, cfg, depth)
 		})
+	}
+}
+
+// Part A2: sweep + notify over every arrival order. For n waiters whose revisions are a permutation of
+// 1..n (every permutation = every heap shape reachable by pushes) and every subset of them cancelled:
+// add all, cancel the subset, one sweep tick, then notify(1), notify(2), .. notify(n) in turn; after
+// notify(r) every live waiter with revision <= r must have its answer, and no live waiter with a
+// larger revision may have one. This is the same oracle as part A on a space that part A's fixed
+// arrival orders do not contain.
+func permutations(n int) [][]int {
+	var out [][]int
+	a := make([]int, n)
+	for i := range a {
+		a[i] = i + 1
+	}
+	var rec func(k int)
+	rec = func(k int) {
+		if k == n {
+			out = append(out, append([]int(nil), a...))
+			return
+		}
+		for i := k; i < n; i++ {
+			a[k], a[i] = a[i], a[k]
+			rec(k + 1)
+			a[k], a[i] = a[i], a[k]
+		}
+	}
+	rec(0)
+	return out
+}
+
+func TestSweepThenNotifyAllArrivalOrders(t *testing.T) {
+	sizes := []int{4, 5, 6, 7}
+	run.Rule(fmt.Sprintf("Part A2: for n in %v: every permutation of revisions 1..n as arrival order x every subset cancelled (quick: for n=7 only subsets of at most 2): add all, cancel, sweep tick, notify(1..n) in turn; after each notify every live waiter at or below the revision is answered and none above it", sizes))
+	for _, n := range sizes {
+		n := n
+		perms := permutations(n)
+		shards := 8
+		for s := 0; s < shards; s++ {
+			s := s
+			t.Run(fmt.Sprintf("n%d-shard%d", n, s), func(t *testing.T) {
+				t.Parallel()
+				for pi := s; pi < len(perms); pi += shards {
+					if run.Expired() {
+						run.Cap("deadline in part A2")
+						return
+					}
+					perm := perms[pi]
+					cfg := config{Name: fmt.Sprint("perm", perm)}
+					for _, r := range perm {
+						cfg.Waiters = append(cfg.Waiters, waiterDef{Table: "t", Rev: uint64(r)})
+					}
+					for mask := 1; mask < 1<<n-1; mask++ { // at least one cancelled, at least one kept
+						if n >= 7 && !run.Thorough() && bits.OnesCount(uint(mask)) > 2 {
+							continue
+						}
+						var path []event
+						for i := 0; i < n; i++ {
+							path = append(path, event{Kind: "add", W: i})
+						}
+						for i := 0; i < n; i++ {
+							if mask&(1<<i) != 0 {
+								path = append(path, event{Kind: "cancel", W: i})
+							}
+						}
+						path = append(path, event{Kind: "tick"})
+						for r := 1; r <= n; r++ {
+							path = append(path, event{Kind: "notify", Table: "t", R: uint64(r)})
+						}
+						res := runPath(t, cfg, path)
+						run.Transitions.Add(int64(len(path)))
+						run.Validated.Add(1)
+						run.OutcomeHash(uint64(pi)<<20|uint64(mask)<<4|uint64(n), true)
+						for _, v := range res.viols {
+							run.Violate("order/"+v[0], v[1]+" after "+strings.Join(desc(path), " -> ")+fmt.Sprintf(" [arrival order of revisions %v]", perm), Case{Config: cfg.Name, Path: path, Desc: desc(path)})
+						}
+					}
+				}
+			})
+		}
 	}
 }
